@@ -165,6 +165,22 @@ def throw_programs():
     return out
 
 
+def deep_programs():
+    """thousands of nested calls (direct methods, type methods, constructors), ending in a value / a fault / a throw, handled at the top,
+    inside a method, or by nothing; then the program goes on"""
+    out = []
+    ends = {"value": "输出0", "fault": "输出1 / 0", "throw": "抛出异常：“底”！"}
+    for n in (150, 1999, 2000, 2001, 2500, 6000):
+        for en, etxt in ends.items():
+            rec = "如何深？\n    输入层\n    如果层 == 0：\n        %s\n    输出（深：层 - 1） + 1\n" % etxt
+            out.append(("direct-%d-%s-uncaught" % (n, en), "导入《@JSON》\n" + rec + "令果 = （深：%d）\n（显示：果）\n输出果\n" % n))
+            out.append(("direct-%d-%s-top-handler" % (n, en), "导入《@JSON》\n" + rec + "令甲 = 1\n令果 = （深：%d）\n（显示：果）\n输出果\n拦截异常：\n    （显示：甲）\n    输出甲\n" % n))
+            out.append(("direct-%d-%s-method-handler" % (n, en), "导入《@JSON》\n" + rec + "如何护？\n    输入层\n    输出（深：层）\n    拦截异常：\n        输出-1\n令甲 = 1\n令果 = （护：%d）\n令果二 = （护：3）\n（显示：甲、果、果二）\n输出甲 + 果\n" % n))
+            meth = "定义递：\n    其数 = 0\n\n    如何降？\n        输入层\n        如果层 == 0：\n            %s\n        输出以其（降：层 - 1）\n" % etxt
+            out.append(("type-method-%d-%s-handler" % (n, en), "导入《@JSON》\n" + meth + "如何护？\n    输入层\n    令物 = （新建递）\n    输出以物（降：层）\n    拦截异常：\n        输出-1\n令甲 = 1\n令果 = （护：%d）\n（显示：甲、果）\n输出甲\n" % n))
+    return out
+
+
 def nested_programs():
     """every kind of statement / definition placed inside every kind of body (method, method called twice, own constructor,
     the predefined 异常's redefined constructor, getter, type method, handler block, branch, loops) and the body executed"""
@@ -280,6 +296,8 @@ def run(ctx):
         cases.append(dict(id=len(cases), recv="null", acc="form", name="", args=["n0"], src=src.replace("导入《@JSON》\n", "导入《@JSON》\n输入甲、乙1\n", 1))); meta.append(("shape", tag))
     for tag, src in throw_programs():
         cases.append(dict(id=len(cases), recv="null", acc="form", name="", args=["n0"], src=src.replace("导入《@JSON》\n", "导入《@JSON》\n输入甲、乙1\n", 1))); meta.append(("nested", "throw:" + tag))
+    for tag, src in deep_programs():
+        cases.append(dict(id=len(cases), recv="null", acc="form", name="", args=["n0"], src=src.replace("导入《@JSON》\n", "导入《@JSON》\n输入甲、乙1\n", 1))); meta.append(("nested", "deep:" + tag))
     for tag, src in nested_programs():
         cases.append(dict(id=len(cases), recv="null", acc="form", name="", args=["n0"], src=src.replace("导入《@JSON》\n", "导入《@JSON》\n输入甲、乙1\n", 1))); meta.append(("nested", tag))
     for t in VARINPUTS + VARINPUTS2:
@@ -313,8 +331,8 @@ def run(ctx):
                     "function) = 281k invocations with the outcome the validators' patterns demand (quick: all of arity <= 1 + a seeded 45000); plus random tuples of arity 3-4 "
                     "for every method/function/constructor, 38 operator/index/assignment/iteration/construction/throw/format forms x 11 receiver kinds x pool values, and %d "
                     "input-variable texts; %d programs that build a value of unusual shape (a collection that contains itself, directly or through another collection or an object; the result of a body that "
-                    "produces nothing; a type or method as a value) and consume it in every way (display, return, format, JSON, copy, compare, search, iterate, throw, join, merge). %d programs that raise an exception object of every shape (no 内容 property, 内容 a number / list / dictionary / 空 / the object itself / a faulting getter, constructors that set nothing or fault) at top level, in methods, getters, loops, handled by nothing / another type's handler / a handler that reads or displays it. %d programs that place every kind of definition / section (type, method, constructor, getter, import, 输入, handler, a custom throw) inside every kind of body (method, method called twice, own constructor, the redefined constructor of 异常 - constructed and thrown -, getter, type method, handler block, branch, loops) and run it. Every case runs in a worker process: the outcome class must be value or Zn error - never panic, nil result, exit or hang. The member "
-                    "tables extracted from the Go sources must equal the spec's tables" % (len(VARINPUTS) + len(VARINPUTS2), len(weird_programs()), len(throw_programs()), len(nested_programs())),
+                    "produces nothing; a type or method as a value) and consume it in every way (display, return, format, JSON, copy, compare, search, iterate, throw, join, merge). %d programs that raise an exception object of every shape (no 内容 property, 内容 a number / list / dictionary / 空 / the object itself / a faulting getter, constructors that set nothing or fault) at top level, in methods, getters, loops, handled by nothing / another type's handler / a handler that reads or displays it. %d programs with 150 .. 6000 nested calls (direct methods, type methods) ending in a value / fault / throw, handled at the top, in a method, or not at all, and going on afterwards. %d programs that place every kind of definition / section (type, method, constructor, getter, import, 输入, handler, a custom throw) inside every kind of body (method, method called twice, own constructor, the redefined constructor of 异常 - constructed and thrown -, getter, type method, handler block, branch, loops) and run it. Every case runs in a worker process: the outcome class must be value or Zn error - never panic, nil result, exit or hang. The member "
+                    "tables extracted from the Go sources must equal the spec's tables" % (len(VARINPUTS) + len(VARINPUTS2), len(weird_programs()), len(throw_programs()), len(deep_programs()), len(nested_programs())),
                outcome_counts=counts, illtyped_calls_returning_a_value=illtyped_accepted, unmodelled_members=unmodelled, stale_members=stale)
     if unmodelled or stale:
         # not a verdict by itself: recorded, so that the new member gets its row in the spec's tables (until then only the
